@@ -14,13 +14,33 @@
      C11_mask_move_whole     the mask never contains one half of IN_MOVE without the other
      C11_item_stream         ... and to streams of items (singles and paired moves) as handed over under the mask
      C11_table_refuted_pinned    the table of the pinned tree (finding F6)
-   What is NOT proved: C11_full, the statement over whole operation histories.  It needs the kernel,
-   reader (watch bookkeeping, pairing through the delay queue) and skip-repeats-queue models that are
-   being built separately (Kernel.v, Reader.v, Grouping.v, Pipeline.v); the pipeline lemma "deleting
-   raw events whose flag is outside needed_for changes neither the watch-state trajectory nor the
-   accepted output" is what remains, C11_table + C11_emit_stream being its emitter/table half. *)
+   Over the kernel / reader / buffer models (Fs.v, Reader.v, Contract.v):
+     C11_read_one_plain      a raw event without a structural bit only appends its InotifyEvent
+     C11_reader_transparent  reading the kept part of a batch: same final state, kept part of the output
+     C11_kernel_twin         same operation, watches with mask M' inside M: the second queue is the sent part of
+                             the first, up to the kernel's coalescing (kcollapse)
+     C11_kernel_no_coalescing    within one operation from a drained queue nothing is coalesced
+     C11_reader_mask_irrelevant  the reader's bookkeeping does not depend on the mask of its watches
+     C11_group_transparent   grouping the kept part of a batch = handed_over of the groups of the whole batch
+     C11_transparent_step / C11_transparent_sequential
+                             histories in which every operation is drained (one read of the whole queue,
+                             grouping, emission): the filtered watch queues EXACTLY the accepted part of what
+                             the unfiltered watch queues, from Inotify.__init__ on, for every recursive watch and
+                             for every non-recursive watch whose mask contains IN_MOVE
+   What is NOT proved: C11_full, the unrestricted statement.  The gaps, named:
+     (a) non-recursive watches whose filter asks for no move-derived class (e.g. [FileOpenedEvent]): the
+         mask has no IN_MOVE, the filtered reader's _moved_from_events differs (harmlessly) from the
+         unfiltered one's and the twin relation used here (identical reader states) does not hold;
+     (b) histories that are not drained: several operations per read (the kernel then coalesces differently
+         under different masks - C11_kernel_twin is only up to kcollapse), reads that cut a burst, pairing
+         through the delay queue across reads and the clock;
+     (c) the skip-repeats event queue (C16) between emitter and handler (hence "up to stutter" in C11_full).
+   The tie of the drained regime to Pipeline.prun is C03's pipeline_tie (proved there for pc_filter = None). *)
 Require Import WD.Base.Prelude WD.Base.BStr WD.Model.SubEvents WD.Model.Emitter WD.Model.MaskTable.
-Require Import WD.Gen.MaskTableGen WD.Proofs.MaskTableProofs WD.Proofs.C11Proofs.
+Require Import WD.Model.Fs WD.Model.Reader WD.Model.Contract.
+Require Import WD.Gen.MaskTableGen WD.Proofs.MaskTableProofs WD.Proofs.C11Proofs WD.Proofs.ContractProofs.
+Require Import WD.Proofs.C11KernelProofs WD.Proofs.C11ReaderProofs WD.Proofs.C11TwinProofs WD.Proofs.C11GroupProofs
+               WD.Proofs.C11SeqProofs.
 
 (* The full property.  [events F full recursive h] = the events delivered to the handler of a watch
    with event filter F (None = no filter) over the operation history h; [paced] = the pacing condition
@@ -125,6 +145,95 @@ Theorem C11_item_stream_refuted_pinned :
 Proof. exact emit_item_stream_refuted_pinned. Qed.
 Print Assumptions C11_item_stream_refuted_pinned.
 
+(* ------------------------------------------------------------------ kernel, reader, buffer *)
+(* A raw kernel event with none of the bits the reader acts on (IN_MOVED_FROM, IN_MOVED_TO, IN_IGNORED, and
+   IN_CREATE with IN_ISDIR under a recursive watch) leaves the bookkeeping and the kernel untouched. *)
+Theorem C11_read_one_plain : forall C t r k acc e,
+  structural (c_recursive C) (k_mask e) = false ->
+  read_one C t (r, k, acc) e =
+  match alookup N.eqb (k_wd e) (pfw r) with
+  | None => Crash SITE_PATH_FOR_WD
+  | Some wdp => Done (r, k, acc ++ [mkraw e (rpath wdp (k_name e))])
+  end.
+Proof. exact read_one_plain_c11. Qed.
+Print Assumptions C11_read_one_plain.
+
+(* For every predicate on masks that keeps the structural events (and, under a recursive watch, the
+   IN_CREATE raws the reader simulates): reading the kept part of a batch ends in the same reader and
+   kernel state and outputs the kept part of the output. *)
+Theorem C11_reader_transparent : forall C t (keep : N -> bool),
+  (forall m, structural (c_recursive C) m = true -> keep m = true) ->
+  (c_recursive C = true -> keep IN_CREATE = true /\ keep (N.lor IN_CREATE IN_ISDIR) = true) ->
+  forall b r k acc r' k' out,
+    read_batch C t (r, k, acc) b = Done (r', k', out) ->
+    read_batch C t (r, k, filter (fun x => keep (r_mask x)) acc) (filter (fun e => keep (k_mask e)) b)
+    = Done (r', k', filter (fun x => keep (r_mask x)) out).
+Proof. exact reader_transparent. Qed.
+Print Assumptions C11_reader_transparent.
+
+(* Two inotify instances with the same watches, masks M and M' (M' inside M, no IN_ISDIR bit): the same
+   operation keeps them twins, and the second queue is what the kernel's coalescing makes of the part of
+   the first queue that a watch with mask M' is sent. *)
+Theorem C11_kernel_twin : forall M M', N.land M' M = M' -> N.land IN_ISDIR M' = 0%N ->
+  forall k k' t o, kwt M M' k k' -> kq M' k k' ->
+    kwt M M' (kernel_op k t o) (kernel_op k' t o) /\ kq M' (kernel_op k t o) (kernel_op k' t o).
+Proof. exact kernel_op_twin. Qed.
+Print Assumptions C11_kernel_twin.
+
+Theorem C11_kernel_no_coalescing : forall k t o, k_queue k = [] -> NoDup (k_queue (kernel_op k t o)).
+Proof. exact kernel_op_nodup. Qed.
+Print Assumptions C11_kernel_no_coalescing.
+
+Theorem C11_reader_mask_irrelevant : forall C M M', c_mask C = M -> forall t b r k k' acc,
+  kw0 M M' k k' ->
+  orel M M' (read_batch C t (r, k, acc) b) (read_batch (with_mask C M') t (r, k', acc) b).
+Proof. exact read_batch_twin. Qed.
+Print Assumptions C11_reader_mask_irrelevant.
+
+Theorem C11_group_transparent : forall C M', N.land M' IN_ALL_EVENTS = M' -> N.land IN_ISDIR M' = 0%N ->
+  flag_in IN_MOVED_FROM M' = flag_in IN_MOVED_TO M' ->
+  forall raws, Forall (fun x => kshaped (r_mask x)) raws ->
+    group_batch C (filter (fun x => kkeep M' (r_mask x)) raws) = flat_map (handed_over M') (group_batch C raws).
+Proof. exact group_batch_handed. Qed.
+Print Assumptions C11_group_transparent.
+
+(* every recursive watch sees the structural events, whatever its filter (from the table lemma) *)
+Theorem C11_visible_recursive : forall F, visible F true.
+Proof. exact visible_recursive. Qed.
+Print Assumptions C11_visible_recursive.
+
+(* ONE DRAINED OPERATION.  [run_one F C full w k r o] = apply o, let the kernel queue its records, read the
+   whole queue, group, emit through the class filter F; it returns the new world / kernel / reader state
+   and the events queued (with F = None it is Contract.deliver_one).  The unfiltered watch has mask
+   WATCHDOG_ALL, the filtered one the mask its filter is compiled into. *)
+Theorem C11_transparent_step : forall F C, c_mask C = WATCHDOG_ALL -> visible F (c_recursive C) ->
+  forall full w k k' r o w1 k1 r1 evs,
+    kw0 WATCHDOG_ALL (kmask F (c_recursive C)) k k' ->
+    run_one None C full w k r o = Some (w1, k1, r1, evs) ->
+    exists k1', run_one F (with_mask C (kmask F (c_recursive C))) full w k' r o
+                = Some (w1, k1', r1, filter (fun e => accepts F (ev_cls e)) evs) /\
+                kw0 WATCHDOG_ALL (kmask F (c_recursive C)) k1 k1'.
+Proof. exact transparent_step. Qed.
+Print Assumptions C11_transparent_step.
+
+Theorem C11_run_one_is_deliver_one : forall C full w k r o,
+  option_map snd (run_one None C full w k r o) = deliver_one C full w k r o.
+Proof. exact run_one_deliver. Qed.
+Print Assumptions C11_run_one_is_deliver_one.
+
+(* HISTORIES IN WHICH EVERY OPERATION IS DRAINED, from Inotify.__init__ on the initial file system: the watch
+   with event filter F queues exactly the accepted part of what the unfiltered watch queues (no stutter
+   needed: nothing is coalesced in this regime).  Hypothesis [visible]: the filter's mask contains IN_MOVE
+   (and IN_CREATE when recursive) - true of every recursive watch (C11_visible_recursive). *)
+Theorem C11_transparent_sequential : forall F C full,
+  c_mask C = WATCHDOG_ALL -> visible F (c_recursive C) ->
+  forall w ops evs,
+    run_from None C full w ops = Some evs ->
+    run_from F (with_mask C (kmask F (c_recursive C))) full w ops
+    = Some (filter (fun e => accepts F (ev_cls e)) evs).
+Proof. exact transparent_from. Qed.
+Print Assumptions C11_transparent_sequential.
+
 (* The table of the pinned tree (frozen copy): the table lemma is false.  Finding F6. *)
 Theorem C11_table_refuted_pinned :
   exists F recursive b, In b (needed_for F recursive) /\ flag_set b (mask_of_filter_pinned recursive F) = false.
@@ -211,3 +320,20 @@ Example C11_item_stream_nonvacuous :
   flat_map (handed_over (effective_mask (mask_of_filter false (Some [Concrete FileOpened])))) its
     = [Single (probe_raw IN_OPEN probe_entry)].
 Proof. vm_compute. repeat split. Qed.
+
+(* the sequential theorem on a concrete world (ContractProofs.ex_world: /R/{d/{f,e/},x}, /O/{y,z/g}), recursive
+   watch on /R, filter [FileDeletedEvent]: create, rename inside, move out, mkdir + create inside *)
+Example C11_sequential_nonvacuous :
+  let F := Some [Concrete FileDeleted] in
+  let ops := [Touch (ex_sl ex_R 97); Rename (ex_sl ex_R 97) (ex_sl ex_Rd 98); Rename (ex_sl ex_Rd 98) (ex_sl ex_O 99);
+              Mkdir (ex_sl ex_R 109); Touch (ex_sl (ex_sl ex_R 109) 110); Unlink (ex_sl (ex_sl ex_R 109) 110)] in
+  c_mask (ex_C true) = WATCHDOG_ALL /\ visible F true /\
+  option_map (map ev_cls) (run_from None (ex_C true) false ex_world ops)
+    = Some [FileCreated; DirModified; FileOpened; FileClosed; DirModified;
+            FileMoved; DirModified; DirModified; FileDeleted; DirModified;
+            DirCreated; DirModified; FileCreated; DirModified; FileOpened; FileClosed; DirModified;
+            FileDeleted; DirModified] /\
+  option_map (map (fun e => (ev_cls e, ev_src e)))
+             (run_from F (with_mask (ex_C true) (kmask F true)) false ex_world ops)
+    = Some [(FileDeleted, ex_sl ex_Rd 98); (FileDeleted, ex_sl (ex_sl ex_R 109) 110)].
+Proof. split; [reflexivity|]. split; [apply visible_recursive|]. vm_compute. split; reflexivity. Qed.
